@@ -17,13 +17,17 @@ MANIFEST = {
             "i), and of the TAP001 / TAP003 kill chains transcribed method by method (per tick the stage stays, moves to the "
             "next stage, to FAILED, or restarts per repeat_kill_chain; no stage is skipped; a stage body runs only after a "
             "successful response, exceptions listed; actions_concluded is absorbing and set exactly per settings; execution "
-            "slots respect start/frequency/variance). Tie: enums, dispatch order, comparators, defaults and the vector shape "
+            "slots respect start/frequency/variance; run level: gaps between consecutive execution slots lie in [max 1 (f-v), max 1 (f+v)], "
+            "every non-idle action is returned in a slot, actions_concluded implies repeat off and a finished chain), and of RandomAgent "
+            "(returns the sampled entry of its action map). Tie: enums, dispatch order, comparators, defaults and the vector shape "
             "regenerated from the sources (Gen/Agents.lean, obligations C19_gen_*) + differential rig R-agent feeding the real "
             "agents timesteps, prescribed draws and synthetic responses, plus property oracles on agent.history in the shipped "
-            "UC2 / UC7 scenarios under random blue actions.",
+            "UC2 / UC7 scenarios under random blue actions; get_action signatures vs the game's call, the empty-history guard, the EXPLOIT "
+            "trial guard and the source expression of every TAP action parameter are regenerated and pinned (C19_gen_*), and a "
+            "parameter oracle recomputes every parameter of every TAP action from the settings.",
     "note": "C19-specific: numpy's Generator.choice and random.randint/choice/random are modelled, not verified; probabilities in "
             "the rig are dyadic so that float comparison is exact; action *parameters* other than node / application / scan "
-            "target are not compared.",
+            "target are checked by a pinned source table plus an implementation-side oracle, not by a theorem.",
     "technique": "Lean 4 theorems over executable agent models; models tied by regenerated tables and a differential rig",
     "design_ref": "5/C19",
 }
@@ -94,10 +98,10 @@ def run(ctx: Ctx):
         ctx.extract("Agents", x_agents.emit)
         ctx.prove(MODULES, exes=[EXE], clean=False, leanchecker=ctx.thorough)
     _gen_obligations(ctx)
-    ctx.cov["rule"] = ("cases = (agent kind in {periodic, data-manipulation, probabilistic, TAP001, TAP003}, settings, prescribed draws, "
+    ctx.cov["rule"] = ("cases = (agent kind in {periodic, data-manipulation, probabilistic, TAP001, TAP003, random}, settings, prescribed draws, "
                        "synthetic response sequence); a case is non-trivial when the agent acts at least twice (periodic), selects an "
                        "action from a table with a zero entry (probabilistic), or leaves the first kill-chain stage / fails / raises "
-                       "(TAP); distinct by canonical JSON")
+                       "(TAP), or returns two different entries / raises (random); distinct by canonical JSON")
     cases = []
     for f in sorted((VERIF / "corpus" / "C19").glob("*.json")):
         rec = json.loads(f.read_text())
